@@ -28,6 +28,11 @@ _ss = _fn_body(_cdt, 'supla_esp_countdown_timer_startstop')
 _cd = _fn_body(_cdt, 'supla_esp_countdown_timer_countdown')
 _upt = _fn_body(_src('src/user/uptime.c'), 'supla_esp_uptime_init')
 _cfg = _fn_body(_src('src/user/supla_esp_cfg.c'), 'supla_esp_save_state')
+_uu = _fn_body(_src('src/user/uptime.c'), 'uptime_usec')
+def _pin(body, rx, want, tag):
+    # a literal / shape the model transcribes by hand: any other value stops the translator
+    m = re.search(rx, body, flags=re.S)
+    return str(int(m.group(1), 0)) if m and int(m.group(1), 0) == want else 'PATTERN_NO_LONGER_MATCHES_' + tag
 
 # last call statement of countdown(): startstop() (unchanged tree) or timer_cb(NULL) (proposed fix)
 _calls = re.findall(r'\b(supla_esp_countdown_timer_startstop|supla_esp_countdown_timer_cb)\s*\(', _cd)
@@ -88,5 +93,10 @@ G.GROUPS['RelayConsts'] = dict(
         ('CD_MAX', _pat(_ss, r'else\s+if\s*\(\s*dms\s*>\s*(\d+)\s*\)\s*\{\s*dms\s*=\s*\1\s*;', 'cd_max')),
         ('UPTIME_POLL_MS', _pat(_upt, r'os_timer_arm\s*\(\s*&usermain_uptime\.timer\s*,\s*(\d+)\s*,\s*1\s*\)', 'uptime_poll')),
         ('EVAL_ON_COMMAND', _evalcmd),
+        # pins of hand-transcribed literals / shapes (the model uses the literal; a change stops the translator)
+        ('UPTIME_MULT', _pin(_uu, r'cycles\s*\*\s*\(unsigned _supla_int64_t\)\s*(0x[0-9a-fA-F]+)', 0xffffffff, 'uptime_mult')),
+        ('UPTIME_WRAP_LT', '1' if re.search(r'if\s*\(\s*time\s*<\s*usermain_uptime\.last_system_time\s*\)', _uu) else 'PATTERN_NO_LONGER_MATCHES_uptime_wrap'),
+        ('CB_EXPIRE_GE', '1' if re.search(r'if\s*\(\s*time_diff\s*>=\s*i->time_left_ms\s*\)', _cdt) else 'PATTERN_NO_LONGER_MATCHES_cb_expire'),
+        ('STARTSTOP_MIN_LT', '1' if re.search(r'delay_ms\s*==\s*0\s*\|\|\s*dms\s*<\s*delay_ms', _ss) else 'PATTERN_NO_LONGER_MATCHES_startstop_min'),
     ],
 )
